@@ -244,9 +244,9 @@ def handlers(key_rx=r".*", default_value=None, owned_keys=None):
             return ENV_PASS
         _wr(ex, a[0], MapV((), m.ty, m.is_set))
         return UNIT
-    H = r"(?:std::collections::)?(?:Hash|BTree)(?:Map|Set)::<" + K
+    H = r"(?:std::collections::|ckb_util::)?(?:Linked)?(?:Hash|BTree)(?:Map|Set)::<" + K
     return [
-        (rx(H + r".*>::(new|with_capacity|default)$|^<(?:std::collections::)?(?:Hash|BTree)(?:Map|Set)<" + K + r".*> as Default>::default$"), new),
+        (rx(H + r".*>::(new|with_capacity|default)$|^<(?:std::collections::|ckb_util::)?(?:Linked)?(?:Hash|BTree)(?:Map|Set)<" + K + r".*> as Default>::default$"), new),
         (rx(H + r".*>::entry$"), entry),
         (rx(r"Entry::<'_, " + K + r".*>::(or_default|or_insert_with::<.*|or_insert)$"), or_default),
         (rx(r"VacantEntry::<'_, " + K + r".*>::insert$"), vacant_insert),
@@ -255,7 +255,7 @@ def handlers(key_rx=r".*", default_value=None, owned_keys=None):
         (rx(H + r".*>::remove(::<.*>)?$"), remove),
         (rx(H + r".*>::(get|get_mut|contains_key|contains)(::<.*>)?$"), get),
         (rx(H + r".*>::(len|is_empty)$"), length),
-        (rx(H + r".*>::(iter|iter_mut|keys|values|values_mut|into_keys|into_values)$|^<&?(?:'\w+ )?(?:mut )?(?:std::collections::)?(?:Hash|BTree)(?:Map|Set)<" + K + r".*> as (?:std::iter::|core::iter::)?IntoIterator>::into_iter$"), it),
+        (rx(H + r".*>::(iter|iter_mut|keys|values|values_mut|into_keys|into_values)$|^<&?(?:'\w+ )?(?:mut )?(?:std::collections::|ckb_util::)?(?:Linked)?(?:Hash|BTree)(?:Map|Set)<" + K + r".*> as (?:std::iter::|core::iter::)?IntoIterator>::into_iter$"), it),
         (rx(r"^<(?:std::collections::)?(?:Hash|BTree)(?:Map|Set)<" + K + r".*> as Clone>::clone$"), clone),
         (rx(H + r".*>::(shrink_to_fit|capacity|reserve|shrink_to)$"), noop),
         (rx(H + r".*>::clear$"), clear),
@@ -334,7 +334,7 @@ def it_collect_hashed(ex, c, a, d):
     it = deref(ex, a[0])
     if not _is_it(it):
         return ENV_PASS
-    is_set = bool(re.search(r"collect::<(?:std::collections::)?(?:Hash|BTree)Set<", c))
+    is_set = bool(re.search(r"collect::<(?:std::collections::|ckb_util::)?(?:Linked)?(?:Hash|BTree)Set<", c))
     m = MapV((), d or c, is_set)
     for x in _rest(ex, it):
         x = deref(ex, x) if isinstance(x, RefV) else x
@@ -368,7 +368,7 @@ def map_extend(ex, c, a, d):
 
 
 EXTRAS = [
-    (rx(r" as (?:std::iter::|core::iter::)?Iterator>::collect::<(?:std::collections::)?(?:Hash|BTree)(?:Set|Map)<"), it_collect_hashed),
+    (rx(r" as (?:std::iter::|core::iter::)?Iterator>::collect::<(?:std::collections::|ckb_util::)?(?:Linked)?(?:Hash|BTree)(?:Set|Map)<"), it_collect_hashed),
     (rx(r"^<(?:std::collections::)?(?:Hash|BTree)(?:Set|Map)<.*> as Extend<.*>>::extend::<"), map_extend),
     (rx(r"^Option::<(?:std::collections::)?(?:Hash|BTree)(?:Map|Set)<.*>>::unwrap_or_default$"), opt_unwrap_or_default_set),
     (rx(r" as (?:std::iter::|core::iter::)?Iterator>::unzip::<"), it_unzip),
